@@ -50,13 +50,13 @@ Theorem C03_save_syncs : forall s s1,
   Forall (lib_synced (stree s1)) (mlibs (smodel s)) /\
   hd_error (stree s1) = Some (asset_el (smodel s)) /\
   exists c, find_tag a_scene (stree s1) = Some c /\ rsub c = 0%N /\
-            rkids c = match mscene (smodel s) with Some sid => [(0%N, sid)] | None => [] end.
+            rkids c = match mscene (smodel s) with Some (_, sid) => [(0%N, sid)] | None => [] end.
 Proof. exact save_syncs. Qed.
 Print Assumptions C03_save_syncs.
 
 (* root children outside <asset>, the managed libraries and <scene> keep identity, order and
    subtree, whether the save completes or is interrupted *)
-Theorem C03_unmanaged_preserved : forall fc s,
+Theorem C03_unmanaged_preserved : forall fc s, wf_root (smodel s) (stree s) ->
   unmanaged_children (smodel s) (stree (fst (save_in fc s))) =
   unmanaged_children (smodel s) (stree s).
 Proof. exact unmanaged_preserved. Qed.
@@ -136,7 +136,7 @@ Definition ex_model : model :=
      Lib a_library_cameras true [Obj 2 2002 12 602; Obj 3 2003 13 603];
      Lib a_library_materials false [Obj 4 2004 14 604];
      Lib a_library_visual_scenes false [Obj 5 2005 15 605]]
-    (Some 2005%N).
+    (Some (5, 2005)).
 Definition ex_tree0 : list rchild :=
   [RC 21 a_library_animations 700 [];
    RC 22 a_asset 499 [];
@@ -150,7 +150,7 @@ Definition ex_tree0 : list rchild :=
 Definition ex_state : state := St ex_model ex_tree0.
 
 Definition fail_cam (u : N) : faults := Faults (fun v => if N.eqb v u then Some DaeMalformed else None) None.
-Definition bad_scene : faults := Faults (fun _ => None) (Some (Some 2999%N)).
+Definition bad_scene : faults := Faults (fun _ => None) (Some (Some (9, 2999))).
 
 Example C03_hypotheses_met :
   wf_libs (smodel ex_state) /\ wf_root (smodel ex_state) (stree ex_state) /\ healthy (smodel ex_state).
